@@ -752,7 +752,9 @@ class RoundTripX(Oracle):
                 continue
             tag = exp[2:] if exp.startswith("K:") else None
             # listed findings of the JSON printer / parser, recognised by their narrow signature
-            if kf[1] == "j" and rc(rt) != 0 and "metadata-in-json-must-be-namespace-qualified" in rt:
+            if kf[1] == "b" and rt.startswith("P"):
+                tag = "lyb-hash-collision"            # the LYB printer gives up on colliding sibling hashes (as in RoundTrip)
+            elif kf[1] == "j" and rc(rt) != 0 and "metadata-in-json-must-be-namespace-qualified" in rt:
                 tag = "json-opaq-attr-unqualified"
             elif kf[1] == "j" and family == "opaq-xml" and rc(rt) != 0 and "invalid-character-sequence" in rt:
                 tag = "json-opaq-mixed-array"
